@@ -642,6 +642,13 @@ def check_C09(tier):
                         "nested items), (3) random and mutated inputs from the repository's corpora and honest artefacts; each call under "
                         "recover, a 20 s deadline and an allocation measurement; TraceTotal accepts only value/error within "
                         "128 MiB + 4096 B per input byte")
+    # the verifier's own use of a hostile policy: matching stays linear at every nesting depth; the REFUSAL quotes the
+    # failing statement pretty-printed (known finding RefusalPrintsNestedPolicy, identified by that call site)
+    depths = [1, 8, 40, 400] if q else [1, 8, 40, 400, 1000]
+    c.replay("refusal", [dict(depth=d, wrap=w) for w in ("or", "and", "all", "any", "not") for d in depths],
+             rule="invocation.ExecutionAllowed refused by a delegation policy not(W^d(== .x 1)) for W in or / and / all / any / not-not and "
+                  "d up to %d: Policy.Match within 8 MiB + the sealed size, the verdict a refusal; the memory of the refusal itself "
+                  "over that bound is the recorded finding" % depths[-1])
     return c.finish()
 
 
